@@ -86,7 +86,7 @@ impl Prop for C17 {
         ctx.tier.pick(5000, 30_000)
     }
     fn rule(&self) -> &'static str {
-        "real binary on byte files and piped stdin/stdout: texts with non-ASCII identifiers, strings and comments drawn from what each encoding can represent (plus astral characters / surrogate pairs for the Unicode encodings) x 25 configured encodings (single-byte code pages, CJK multi-byte, UTF-8) x {no BOM, UTF-8 BOM, UTF-16LE BOM, UTF-16BE BOM} incl. BOM != configured encoding x {file, stdin}; reference formatting = library call on the decoded text; oracles: bytes written == BOM + encode(F(decode(bytes))); BOM kept and deciding; malformed input (invalid sequences, odd-length UTF-16, lone surrogates) rejected with non-zero status and the file untouched. Non-trivial: text has a non-ASCII character; distinct by (bytes, encoding, BOM)."
+        "real binary on byte files and piped stdin/stdout: texts with non-ASCII identifiers, strings and comments drawn from what each encoding can represent (plus astral characters / surrogate pairs for the Unicode encodings) x 25 configured encodings (single-byte code pages, CJK multi-byte, UTF-8) x {no BOM, UTF-8 BOM, UTF-16LE BOM, UTF-16BE BOM} incl. BOM != configured encoding x {file, stdin} x {original text, the formatted result fed back}; reference formatting = library call on the decoded text; oracles: bytes written == BOM + encode(F(decode(bytes))); BOM kept and deciding; malformed input (invalid sequences, odd-length UTF-16, lone surrogates) rejected with non-zero status and the file untouched. Non-trivial: text has a non-ASCII character; distinct by (bytes, encoding, BOM)."
     }
     fn floor(&self, tier: Tier) -> u64 {
         tier.pick(300, 5_000)
@@ -271,6 +271,31 @@ impl Prop for C17 {
             out.violate("C17", "valid-input-rejected", format!("[{label}, effective {}] stdin: exit {:?}: {}", effective.name(), r.code, short(&r.stderr_text(), 200)), &text, Some(&cfg));
         } else if r.stdout != expected {
             out.violate("C17", "bytes-differ", format!("[{label}, effective {}, bom {} bytes] stdout bytes != BOM + encode(F(decode(stdin))): {} vs {} bytes", effective.name(), bom.len(), r.stdout.len(), expected.len()), &text, Some(&cfg));
+        }
+        // ---- the result fed back: already-formatted content is where "nothing to do" shortcuts live
+        if let Some((formatted2, _)) = common::run(&mut out, &cfg, &formatted) {
+            if let Some(expected2) = encode(effective, &formatted2).map(|b| [bom, &b[..]].concat()) {
+                out.count("already_formatted_fed_back");
+                out.evals += 1;
+                let r = cli::run(Invocation { bin: &ctx.cli_bin, args: args.clone(), cwd: dir, stdin: Some(expected.clone()), env: vec![], as_nobody: false });
+                if !r.ok() {
+                    out.violate("C17", "valid-input-rejected", format!("[{label}, effective {}] already-formatted stdin: exit {:?}: {}", effective.name(), r.code, short(&r.stderr_text(), 200)), &formatted, Some(&cfg));
+                } else if r.stdout != expected2 {
+                    out.violate("C17", "bytes-differ", format!("[{label}, effective {}, bom {} bytes] already-formatted stdin: stdout bytes != BOM + encode(F(decode(stdin))): {} vs {} bytes", effective.name(), bom.len(), r.stdout.len(), expected2.len()), &formatted, Some(&cfg));
+                }
+                let f2 = dir.join("u2.pas");
+                std::fs::write(&f2, &expected).unwrap();
+                let mut a = args.clone();
+                a.push("u2.pas".into());
+                out.evals += 1;
+                let r = cli::run(Invocation { bin: &ctx.cli_bin, args: a, cwd: dir, stdin: None, env: vec![], as_nobody: false });
+                let got = std::fs::read(&f2).unwrap_or_default();
+                if !r.ok() {
+                    out.violate("C17", "valid-input-rejected", format!("[{label}, effective {}] already-formatted file: exit {:?}: {}", effective.name(), r.code, short(&r.stderr_text(), 200)), &formatted, Some(&cfg));
+                } else if got != expected2 {
+                    out.violate("C17", "bytes-differ", format!("[{label}, effective {}, bom {} bytes] already-formatted file: bytes != BOM + encode(F(decode(input))): {} vs {} bytes", effective.name(), bom.len(), got.len(), expected2.len()), &formatted, Some(&cfg));
+                }
+            }
         }
         if !text.is_ascii() {
             out.nontrivial.push(rng::hash_combine(rng::hash_bytes(&bytes), rng::hash_str(label)));
